@@ -24,7 +24,7 @@ Proof. vm_compute. repeat split; reflexivity. Qed.
     that every message is a MsgEthereumTx and checks the sender account. *)
 Theorem C02_current_guards :
   index_of N_PREVENT_ETH nonevm_chain = Some 0%nat /\ index_of N_AUTHZ_GUARD nonevm_chain = Some 1%nat /\
-  g_prevent current_cfg = true /\ g_authz current_cfg = true /\ wasm_no_eth current_cfg = true /\
+  g_prevent current_cfg = true /\ g_authz current_cfg = true /\ g_authz_exec current_cfg = true /\ wasm_no_eth current_cfg = true /\
   vb_on current_cfg = true /\ fee_on current_cfg = true /\ seq_on current_cfg = true /\
   e_vb current_cfg = true /\ e_acc current_cfg = true.
 Proof. vm_compute. repeat split; reflexivity. Qed.
